@@ -322,8 +322,10 @@ func checkC09(raw json.RawMessage) (ev.Result, error) {
 						return res, fmt.Errorf("%s failed before reaching the kernel, but the state of thread %d changed: %+v -> %+v", desc, i, prev.st[i], cur.st[i])
 					}
 				}
-				if len(ld.Captures) != 0 {
-					return res, fmt.Errorf("%s: invalid policy, but seccomp(2) was called", desc)
+				for _, cap := range ld.Captures {
+					if cap.Op == 1 {
+						return res, fmt.Errorf("%s: invalid policy, but seccomp(2) was called to install a filter", desc)
+					}
 				}
 				sawRefusal = true
 				break
